@@ -68,7 +68,8 @@ func (c *onCloseCounter) addWith(register func(func()), first func()) {
 	c.a = append(c.a, x)
 	c.b = append(c.b, y)
 	c.mu.Unlock()
-	register(func() { x.Add(1); first() })
+	// (the first callback registers two more while the shutdown walks its list: those registered before must still run once)
+	register(func() { x.Add(1); first(); register(func() {}); register(func() {}) })
 	register(func() { y.Add(1) })
 }
 
@@ -521,4 +522,125 @@ func runDiscover(cause string) (line string) {
 		}
 	}
 	return fmt.Sprintf("ret %d after %d err %s ; done %d onclose 1 1 ; panics 0", returned, after, kind, done)
+}
+
+// runServerCtxStop (`case udp srvstop k<N>x stop`): the datagram server got its context from the application
+// (options.WithContext) and is shut down by cancelling that context - Stop() is not called.  k raw peers have each sent one
+// request (so the server has a connection per peer); on every such connection the server has a request of its own in flight
+// (context without deadline) which the peer has acknowledged but does not answer.  After the cancellation every one of those
+// requests must return, Serve must return and every on-close callback must have run exactly once.
+func runServerCtxStop(k int) (line string) {
+	defer func() {
+		if r := recover(); r != nil {
+			line = fmt.Sprintf("panic %v", r)
+		}
+	}()
+	l, err := coapNet.NewListenUDP("udp4", "127.0.0.1:0")
+	if err != nil {
+		return "conn-error"
+	}
+	defer l.Close()
+	parent, parentCancel := context.WithCancel(context.Background())
+	defer parentCancel()
+	counter := &onCloseCounter{}
+	var returned atomic.Int32
+	var lastRet atomic.Int64
+	var started atomic.Int32
+	var ccMu sync.Mutex
+	var srvConns []*udpclient.Conn
+	s := udp.NewServer(options.WithContext(parent), options.WithErrors(func(error) {}),
+		// housekeeping every 20 ms for as long as the server asks for it (it asks for one more pass after its context ended)
+		options.WithPeriodicRunner(func(f func(now time.Time) bool) {
+			go func() {
+				for f(time.Now()) {
+					time.Sleep(20 * time.Millisecond)
+				}
+			}()
+		}),
+		options.WithOnNewConn(func(cc *udpclient.Conn) {
+			counter.add(func(f func()) { cc.AddOnClose(f) })
+			started.Add(1)
+			ccMu.Lock()
+			srvConns = append(srvConns, cc)
+			ccMu.Unlock()
+			go func() {
+				r, err := cc.Get(context.Background(), "/from-server")
+				if err == nil {
+					cc.ReleaseMessage(r)
+				}
+				lastRet.Store(time.Now().UnixNano())
+				returned.Add(1)
+			}()
+		}))
+	served := make(chan error, 1)
+	go func() { served <- s.Serve(l) }()
+	time.Sleep(30 * time.Millisecond)
+	var socks []*net.UDPConn
+	defer func() {
+		for _, c := range socks {
+			c.Close()
+		}
+	}()
+	acked := 0
+	for i := 0; i < k; i++ {
+		c, err := net.DialUDP("udp4", nil, l.LocalAddr().(*net.UDPAddr))
+		if err != nil {
+			return "conn-error"
+		}
+		socks = append(socks, c)
+		_, _ = c.Write([]byte{0x51, 0x01, 0x40, byte(i), byte(0xC0 + i), 0xb1, 'x'}) // NON GET /x
+		// read until the server's own confirmable request arrives; acknowledge it (empty ACK), never answer it
+		buf := make([]byte, 1500)
+		deadline := time.Now().Add(time.Second)
+		for time.Now().Before(deadline) {
+			_ = c.SetReadDeadline(time.Now().Add(100 * time.Millisecond))
+			n, err := c.Read(buf)
+			if err != nil || n < 4 {
+				continue
+			}
+			if buf[0]&0x30 == 0x00 && buf[1] == 0x01 { // CON GET
+				_, _ = c.Write([]byte{0x60, 0x00, buf[2], buf[3]})
+				acked++
+				break
+			}
+		}
+	}
+	if acked != k {
+		return "setup-failed"
+	}
+	time.Sleep(30 * time.Millisecond)
+	causeAt := time.Now()
+	parentCancel()
+	// (Serve itself sits in its socket read until the listener is closed: whether it returns on the cancellation alone is not
+	// C09's subject; `done` reports the done signals of the server-side connections)
+	deadline := time.Now().Add(2 * time.Second)
+	for int(returned.Load()) < k && time.Now().Before(deadline) {
+		time.Sleep(5 * time.Millisecond)
+	}
+	ret, after := 0, int64(-1)
+	if int(returned.Load()) == k {
+		ret = 1
+		after = lastRet.Load() - causeAt.UnixNano()
+		if after < 0 || k == 0 {
+			after = 0
+		}
+	}
+	time.Sleep(100 * time.Millisecond) // the last housekeeping pass reaps the closed connections
+	done := 1
+	ccMu.Lock()
+	for _, cc := range srvConns {
+		select {
+		case <-cc.Done():
+		default:
+			done = 0
+		}
+	}
+	ccMu.Unlock()
+	lo, hi := counter.minmax()
+	s.Stop() // the listener is closed now: Serve returns
+	select {
+	case <-served:
+	case <-time.After(2 * time.Second):
+	}
+	return fmt.Sprintf("ret %d after %d err - ; done %d onclose %d %d ; panics 0", ret, after, done, lo, hi)
 }
